@@ -102,15 +102,15 @@ type workerMsg struct {
 var HangLimit = 20 * time.Second
 
 // Worker executes the run indices idx ≡ w (mod W), idx >= start, of a property tier.
-func Worker(prop, tier string, seed uint64, w, W int, start, limit int64) int {
+func Worker(prop, tier string, seed uint64, w, W int, start, runLimit int64) int {
 	e := EngineFor(prop)
 	if e == nil {
 		fmt.Fprintf(os.Stderr, "no engine for %s\n", prop)
 		return 2
 	}
 	n := e.Runs(tier)
-	if limit > 0 && limit < n {
-		n = limit
+	if runLimit > 0 && runLimit < n {
+		n = runLimit
 	}
 	out := bufio.NewWriterSize(os.Stdout, 1<<20)
 	var mu sync.Mutex
@@ -122,6 +122,12 @@ func Worker(prop, tier string, seed uint64, w, W int, start, limit int64) int {
 		out.Flush()
 		mu.Unlock()
 	}
+	limit := HangLimit
+	if prop != "C03" {
+		// Only C03's subject is termination; elsewhere the supervisor merely guards the harness
+		// and must not fire because the machine is busy.
+		limit = 6 * HangLimit
+	}
 	var cur atomic.Int64
 	var curStart atomic.Int64
 	cur.Store(-1)
@@ -129,7 +135,7 @@ func Worker(prop, tier string, seed uint64, w, W int, start, limit int64) int {
 		for {
 			time.Sleep(500 * time.Millisecond)
 			c := cur.Load()
-			if c >= 0 && time.Since(time.Unix(0, curStart.Load())) > HangLimit {
+			if c >= 0 && time.Since(time.Unix(0, curStart.Load())) > limit {
 				emit(workerMsg{T: "hang", Idx: c})
 				os.Exit(3)
 			}
